@@ -1560,12 +1560,21 @@ class ComputeGraph(MultiDiGraph):
     @staticmethod
     def _process_func_call(expr: str, func: str, replacement: str):
 
-        # identify start and end of the function call
+        # identify start and end of the function call (the end is the parenthesis that closes the call: its
+        # arguments may contain parentheses themselves, e.g. identity((-3.14)) for a negative constant)
         start = expr.find(f"{func}(")
-        end = expr[start:].find(')') + 1
+        depth, end = 0, len(expr)
+        for i in range(start + len(func), len(expr)):
+            if expr[i] == '(':
+                depth += 1
+            elif expr[i] == ')':
+                depth -= 1
+                if depth == 0:
+                    end = i + 1
+                    break
 
         # replace part in expression string
-        return expr.replace(expr[start:start + end], replacement)
+        return expr.replace(expr[start:end], replacement)
 
 
 class ComputeGraphBackProp(ComputeGraph):
